@@ -34,7 +34,7 @@ def make_case(rng, tier):
         else:
             prog['steps'].append({'op': 'reshape', 'a': prog['out'], 'shape': [n], 'how': 'fn'})
             prog['out'] += 1 if False else 0
-            prog['out'] = len(prog['inputs']) + sum(1 for s in prog['steps'] if s['op'] not in ('setitem', 'setbc', 'setconst')) - 1
+            prog['out'] = len(prog['inputs']) + sum(1 for s in prog['steps'] if s['op'] not in ('setitem', 'setbc', 'setconst', 'iopview')) - 1
             prog['out_shape'] = [n]
     rec_kind = rng.choice(['nd', 'ut'])
     D, P = rng.randint(1, 3), rng.randint(1, 2)
